@@ -101,7 +101,8 @@ def raw_iteration(ctx: Ctx, cg: CallGraph):
 
 def state_discipline(ctx: Ctx, cg: CallGraph):
     prog = ctx.prog
-    fi = prog.func(LOAD)
+    from ..normalize import inline_helpers
+    fi = inline_helpers(prog, prog.func(LOAD))
     cfg = CFG(fi.node)
     setters = {"set_ns_prefix": None, "set_nsmap": None}
     first_lookup = None
@@ -121,7 +122,7 @@ def state_discipline(ctx: Ctx, cg: CallGraph):
     for name, hit in setters.items():
         site = f"{LOAD}::{name}"
         if hit is None:
-            ctx.refuted("R16.2", site, f"from_xtce never calls {name}: lookups use whatever an earlier load left behind", where=where(fi, fi.node))
+            ctx.unknown("R16.2", site, f"no call of {name} recognised in from_xtce (decided by the load histories R16.m)", where=where(fi, fi.node))
             continue
         node, call = hit
         ok = node.id in dom.get(first_lookup.id, set())
